@@ -48,6 +48,16 @@ Definition step_op (op : list tok) : list tok :=
       match args with
       | _ :: sizes => let len := sum_toks (map (fun t => match t with TN z => TN (z / 65536) | _ => t end) sizes) in res_toks len (tcp_writev len [KWrote (Nat.div len 2)])
       | _ => [TS "badop"] end
+    else if name =? "h1rt" then
+      (* kawa's H1 parser and serialiser are oracles of the framing theorems: the prediction is the
+         theorem's conclusion — the body bytes that were fed come out, and the message is complete
+         and terminated exactly when the input was (D <body bytes fed> <input whole?>) *)
+      match zs_between args "D" with
+      | d :: w :: x :: _ =>
+        (* x = 1: a chunk extension is fed; kawa 0.6.8's chunk-size parser has no chunk-ext rule *)
+        if (x =? 0)%Z then [TN d; TN w; TN w; TN 0] else [TN 0; TN 0; TN 0; TN 1]
+      | d :: w :: _ => [TN d; TN w; TN w; TN 0]
+      | _ => [TS "badop"] end
     else if name =? "tlsnew" then []
     else if name =? "tlswrite" then
       (* peer drains: the plain loop offers the rest again after every flush until all is taken *)
